@@ -101,6 +101,11 @@ func (w *World) c12Audit(t *rapid.T, m *mwallet) {
 		}
 		isStaking := ia.Class == massutil.AddressClassWitnessStaking
 		funded := w.fundedOnChain(ia.Hash, &isStaking)
+		if !isStaking && !funded && w.fundedOnChain(ia.Hash, nil) {
+			// a standard-class address whose key was paid in the staking form only: whether that is "a
+			// payment to it" the statement leaves open (the wallet counts it) - listed it must stay
+			continue
+		}
 		if e.used != funded {
 			t.Fatalf("issued address #%d %s: used=%v, best chain pays it: %v\n  %s", i, ia.Addr, e.used, funded, w.journalTail(25))
 		}
@@ -215,7 +220,7 @@ func (w *World) c12AuditAPI(t *rapid.T, m *mwallet) {
 				t.Fatalf("issued address #%d %s (class %d) is not listed by API GetAddresses(%d)\n  %s", i, ia.Addr, class, class, w.journalTail(25))
 			}
 			isStaking := class == massutil.AddressClassWitnessStaking
-			if funded := w.fundedOnChain(ia.Hash, &isStaking); e.used != funded {
+			if funded := w.fundedOnChain(ia.Hash, &isStaking); e.used != funded && (isStaking || funded || !w.fundedOnChain(ia.Hash, nil)) {
 				t.Fatalf("API GetAddresses: issued address #%d %s used=%v, best chain pays it: %v\n  %s", i, ia.Addr, e.used, funded, w.journalTail(25))
 			}
 			if isStaking && e.std != ia.Std {
@@ -324,6 +329,11 @@ func propC12(t *rapid.T) {
 			script := sim.StdScript(ia.Hash)
 			if ia.Class == massutil.AddressClassWitnessStaking {
 				script = sim.StakingScript(ia.Hash, consensus.MinFrozenPeriod)
+			} else if rapid.IntRange(0, 3).Draw(t, "stakingFormOfStandardAddress") == 0 {
+				// anybody can lock funds to the staking form of a key whose address was issued in the
+				// standard class: the issued address stays what it is and stays listed
+				script = sim.StakingScript(ia.Hash, consensus.MinFrozenPeriod)
+				w.flag("standard-class-address-paid-in-staking-form")
 			}
 			tx := wire.NewMsgTx()
 			tx.AddTxIn(sim.Spend(c.Op.Hash, c.Op.Index, wire.MaxTxInSequenceNum))
